@@ -185,7 +185,7 @@ func vDec(v uint64) string {
 	return string(b)
 }
 
-//verif:check C10,C18 stubs=globfs reach=listed,end desc="the real findSnapshots over a directory listing in arbitrary order: every published snapshot index is parsed back exactly from its file name and the list is newest first, so a restart picks the latest snapshot" bounds="2 meta files with 1..3 free decimal digits each plus one file with a fixed boundary index (2^63 or 2^64-1), listed in any order"
+//verif:check C10,C18,C09 stubs=globfs reach=listed,end desc="the real findSnapshots over a directory listing in arbitrary order: every published snapshot index is parsed back exactly from its file name and the list is newest first, so a restart picks the latest snapshot" bounds="2 meta files with 1..3 free decimal digits each plus one file with a fixed boundary index (2^63 or 2^64-1), listed in any order"
 func VH_C10_findSnapshots() {
 	var want []uint64
 	vGlobNames = nil
@@ -218,5 +218,41 @@ func VH_C10_findSnapshots() {
 	for _, v := range want {
 		vAssert(vOr(got[0] == v, vOr(got[1] == v, got[2] == v)), "FS-index-parsed-back-exactly")
 	}
+	vReach("end")
+}
+
+//verif:check C10 stubs=env,valuefile,abslog,snapfs,restart reach=crash,restarted,partial-reset,end desc="crash inside the log reset of onInstallSnapRequest when the log spans several segments (the reset unlinks them oldest first, so a crash leaves a suffix of the old log that may start beyond the snapshot), then openStorage: the node starts, and its log is contiguous with its latest snapshot" bounds="follower (state Follower, no pending configuration) with a log of 3 uncommitted update entries, one per segment, after a symbolic base; a snapshot request of the node's term with an empty payload that makes it discard the log; crash at any storage-operation boundary incl. between the unlinks"
+func VH_C10_install_crash_segments() { vInstallCrashSegments(true) }
+
+//verif:check C10 tier=thorough stubs=env,valuefile,abslog,snapfs,restart reach=crash,restarted,partial-reset,end desc="as VH_C10_install_crash_segments without the simplifying assumptions" bounds="any role, optional pending configuration, any request term and payload size" maxdec=3000
+func VH_C10_install_crash_segments_full() { vInstallCrashSegments(false) }
+
+func vInstallCrashSegments(lean bool) {
+	c := vInstallSetup(3, true)
+	r, a, req := c.r, c.a, c.req
+	vNoConfigEntries()
+	if lean {
+		vAssume(r.state == Follower && r.configs.IsCommitted() && req.size == 0 && req.term == r.term)
+		for _, e := range vEntries {
+			vAssume(e.typ == entryUpdate)
+		}
+	}
+	a.bounds = []uint64{a.base + 1, a.base + 2}
+	vAssume(r.commitIndex == a.base && r.fsm.index == a.base && r.snaps.index == a.base)
+	// the request makes the node discard its log
+	vAssume(req.term >= r.term)
+	vAssume(vNot(vAnd(vAnd(req.lastIndex > a.prev, req.lastIndex <= a.last()), vTermAt(a, a.base, req.lastIndex) == req.lastTerm)))
+	vCrashArmed = true
+	crashed := vRunToCrash(func() { _, _ = r.onInstallSnapRequest(req, c.conn) })
+	if crashed && vCrashedAt == "log.reset.partial" {
+		vReach("partial-reset")
+	}
+	st, a2, err := vRestart(a)
+	vAssert(err == nil, "restart-opens")
+	if err != nil {
+		return
+	}
+	vReach("restarted")
+	vAssertRestartInvariant(st, a2, "R")
 	vReach("end")
 }
